@@ -15,9 +15,9 @@ TB = ['random', 'random', 'fifo', 'lifo', 'const']
 def pick_T(rng, big=False):
     T = rng.choice([3, 8, 15, 25] if not big else [25, 60, 120, 200])
     r = rng.random()
-    if r < 0.75:
+    if r < 0.65:
         return [T]
-    if r < 0.9:
+    if r < 0.87:
         a = rng.choice([0.5, 1, 2.5, 4])
         return [a, max(0.5, T - a)]
     return [1, 2.5, max(0.5, T - 3.5)]
@@ -58,9 +58,44 @@ def fail_during_maint(rng, procs):
     return [first, [t + rng.choice([0, 0.25, 0.5, 1]), rng.choice(PRIOS), 'fail', P, rng.choice([0, 0, 0.25])]]
 
 
-def finish(rng, spec, profile, big=False):
+def between_actions(rng, spec):
+    """Unblocking (and blocking) API calls made between two simulate() calls, i.e. not from inside an event."""
+    out = []
+    devs = all_devs(spec)
+    holders = [d for d in devs if d['k'] in ('H', 'P', 'B')]
+    for _ in range(rng.choice([1, 1, 2, 3])):
+        i = rng.randrange(len(spec['T']) - 1)
+        r = rng.random()
+        if r < 0.3 and len(holders) >= 2:
+            x = rng.choice([d for d in spec['devs'] if d['k'] in ('H', 'P', 'B')] or [None])
+            if x is not None:
+                idx = spec['devs'].index(x)
+                ups = [u['n'] for u in spec['devs'][:idx] if u['k'] in ('S', 'H', 'P', 'B') and u['n'] not in x['up']]
+                if ups:
+                    out.append([i, 'rewire_add', x['n'], rng.choice(ups)])
+                    continue
+        if r < 0.55:
+            out.append([i, 'block', rng.choice([d['n'] for d in devs if d['k'] not in ('S', 'K')] or ['K0']), rng.random() < 0.4])
+        elif r < 0.7 and spec['res']:
+            out.append([i, 'addres', rng.choice(list(spec['res'])), rng.choice([1, 1, 2, -1])])
+        elif r < 0.85:
+            out.append([i, 'adjust', rng.choice(names_of(spec, 'S')), rng.choice([1, 3])])
+        else:
+            ps = names_of(spec, 'P')
+            if ps:
+                out.append([i, rng.choice(['restore', 'shutdown']), rng.choice(ps)])
+    return [b for b in out if not (b[1] == 'block' and b[2] == 'K0' and not any(d['n'] == 'K0' for d in devs))]
+
+
+def finish(rng, spec, profile, big=False, T=None):
     spec['tb'] = [rng.choice(TB), rng.randrange(10 ** 6)]
     spec['T'] = pick_T(rng, big)
+    if T is not None:
+        # a profile-specific horizon, split like the others
+        spec['T'] = [T] if len(spec['T']) == 1 else [spec['T'][0], max(0.5, T - spec['T'][0])] if len(spec['T']) == 2 \
+            else [1, 2.5, max(0.5, T - 3.5)]
+    if len(spec['T']) > 1 and rng.random() < 0.7:
+        spec['between'] = between_actions(rng, spec)
     spec['profile'] = profile
     spec.setdefault('maint', rng.choice([0, 1, 1, 2, 2, 3, INF]))
     return spec
@@ -263,6 +298,9 @@ def gen_groups(rng):
         keep.append([rng.choice(TIMES), rng.choice(PRIOS), 'block', rng.choice(gp_names), rng.random() < 0.5])
     spec['actions'] = keep
     spec['profile'] = 'groups'
+    spec.pop('between', None)
+    if len(spec['T']) > 1 and rng.random() < 0.7:
+        spec['between'] = [b for b in between_actions(rng, spec) if b[1] != 'rewire_add']
     return spec
 
 
@@ -305,24 +343,25 @@ def gen_contention(rng):
     else:
         last = list(ps)
     devs.append({'k': 'K', 'n': 'K0', 'c': rng.choice([0, 0.5, 2]), 'up': last})
-    for i in range(rng.choice([2, 4, 8])):
-        t = rng.choice([1, 2, 2.5, 3, 4, 5.5, 7, 9, 12])
+    for i in range(rng.choice([2, 4, 8, 12])):
+        t = rng.choice([1, 2, 2.5, 3, 4, 5.5, 7, 9, 12, 15, 18])
         pr = rng.choice(PRIOS)
         r = rng.random()
         if r < 0.45:
             spec['actions'].append([t, pr, 'addres', rng.choice(list(spec['res'])), rng.choice([-2, -1, 1, 1, 2])])
         elif r < 0.6:
             spec['actions'].append([t, pr, 'fail', rng.choice(ps), 0])
-        elif r < 0.75:
+        elif r < 0.68:
             spec['actions'].append([t, pr, 'wo', rng.choice(ps)])
+        elif r < 0.78:
+            spec['actions'].append([t, pr, 'maint', rng.choice(ps), rng.choice([0.5, 1, 2.75])])
         elif r < 0.85:
             spec['actions'].append([t, pr, 'restore', rng.choice(ps)])
         else:
             spec['actions'].append([t, pr, 'block', rng.choice(ps), rng.random() < 0.5])
     if rng.random() < 0.35:
         spec['actions'] += fail_during_maint(rng, ps)
-    spec = finish(rng, spec, 'contention')
-    spec['T'] = [rng.choice([8, 15, 30])]
+    spec = finish(rng, spec, 'contention', T=rng.choice([8, 15, 30]))
     return spec
 
 
@@ -371,6 +410,7 @@ def gen_buffers(rng, noise=False):
     spec = finish(rng, spec, 'buffers-noise' if noise else 'buffers')
     if noise:
         spec['T'] = [rng.choice([7.3, 19.9, 41.7])]
+        spec.pop('between', None)
     return spec
 
 
@@ -422,7 +462,7 @@ def gen_interrupt(rng):
         elif P and r < 0.7:
             acts.append([t, pr, 'wo', P])
         elif r < 0.9:
-            acts.append([t, pr, 'offset', rng.choice(procs + handlers), rng.choice([-5, -0.5, 0.25, 1, 2])])
+            acts.append([t, pr, 'offset', rng.choice(procs + handlers + ['K0']), rng.choice([-5, -0.5, 0.25, 1, 2])])
         elif spec['res']:
             acts.append([t, pr, 'addres', 'r0', rng.choice([-1, 1])])
     if procs and rng.random() < 0.35:
@@ -592,8 +632,7 @@ def gen_rework(rng):
         else:
             acts.append([t, pr, 'adjust', 'S0', rng.choice([1, 2])])
     spec['actions'] = acts
-    spec = finish(rng, spec, 'rework')
-    spec['T'] = [rng.choice([15, 25, 40])]
+    spec = finish(rng, spec, 'rework', T=rng.choice([15, 25, 40]))
     return spec
 
 
@@ -653,8 +692,7 @@ def gen_parallel(rng):
         acts.append([t, rng.choice(PRIOS), 'block', x, True])
         acts.append([t + rng.choice([0.5, 1, 1.5, 2.5]), rng.choice(PRIOS), 'block', x, False])
     spec['actions'] = acts
-    spec = finish(rng, spec, 'parallel')
-    spec['T'] = [rng.choice([10, 20, 40])]
+    spec = finish(rng, spec, 'parallel', T=rng.choice([10, 20, 40]))
     return spec
 
 
@@ -744,6 +782,14 @@ def well_posed(spec):
                 return False
             bd = [d for d in devs if d['n'] == to]
             if not bd or bd[0]['k'] != 'B' or not bd[0]['c'] > 0:
+                return False
+        for b in spec.get('between', []):
+            if not (0 <= b[0] < len(spec['T']) - 1):
+                return False
+            if b[1] == 'addres':
+                if b[2] not in spec['res']:
+                    return False
+            elif b[2] not in names or (b[1] == 'rewire_add' and b[3] not in names):
                 return False
         for a in spec['actions']:
             if a[0] < 0 or a[1] <= 1:
